@@ -733,7 +733,7 @@ def token_domain(ctx):
     """R20.4: the tokens ever registered are all handled before the `_ => unreachable!()` arm."""
     allowed_consts = {'io_loop::STREAM', 'io_loop::HEARTBEAT', 'io_loop::ALLOC_CHANNEL', 'io_loop::SET_BLOCKED_TX'}
     regs = registrations(ctx)
-    for p, kind, tok, node in regs:
+    for p, kind, tok, node, _h in regs:
         if kind == 'deregister':
             continue
         if tok in allowed_consts or tok == 'mio::Token(0)':
@@ -807,7 +807,27 @@ def registrations(ctx):
         for n in H.walk(fn['hir']):
             if n.get('k') == 'MethodCall' and n.get('path', '').startswith('mio::Poll::') and n['name'] in ('register', 'reregister', 'deregister'):
                 tok = H.term(n['args'][1]) if n['name'] != 'deregister' else None
-                out.append((p, n['name'], tok, n))
+                tn = H.peel(n['args'][1]) if n['name'] != 'deregister' else None
+                prm = [i for i, q in enumerate(fn.get('params', [])) if tn is not None and tn.get('k') == 'Local' and q.get('k') == 'Bind' and q['id'] == tn['id']]
+                hn = H.peel(n['args'][0])
+                while hn.get('k') == 'AddrOf' or (hn.get('k') == 'Unary' and hn.get('op') == 'Deref'):
+                    hn = H.peel(hn['e'])
+                hprm = [i for i, q in enumerate(fn.get('params', [])) if hn.get('k') == 'Local' and q.get('k') == 'Bind' and q['id'] == hn['id']]
+                if prm and ctx.new_helper(p):
+                    # the token is a parameter of a helper the vocabulary does not know: the registrations are its call sites
+                    sites = []
+                    for p2, fn2 in sorted(ctx.fns.items()):
+                        if 'hir' not in fn2:
+                            continue
+                        for c in H.walk(fn2['hir']):
+                            if c.get('k') in ('Call', 'MethodCall') and H.norm_path(H.callee_path(c) or '') == p:
+                                args = H.call_args(c)
+                                if prm[0] < len(args):
+                                    sites.append((p2, n['name'], H.term(args[prm[0]]), c, H.term(args[hprm[0]]) if hprm and hprm[0] < len(args) else None))
+                    if sites:
+                        out.extend(sites)
+                        continue
+                out.append((p, n['name'], tok, n, H.term(n['args'][0])))
     return out
 
 
@@ -865,7 +885,7 @@ def inventory(ctx, rid, desc, roots=None, scope=None, floor_sites=None, floor_fu
         for a in PD.ANCHORS:
             if callbacks and scope is None and a not in seen:
                 raise MissingAnchor('anchor %s is not reachable from the I/O thread entry points' % a)
-        funcs = [p for p in sorted(seen) if (scope is None or scope(p))]
+        funcs = [p for p in sorted(seen) if (scope is None or scope(p) or (ctx.new_helper(p) and any(scope(o) for o in ctx.owners(p) | {ctx.owner(p)})))]
         if floor_funcs and len(funcs) < floor_funcs:
             raise Unrecognised('I/O set has only %d functions (expected >= %d)' % (len(funcs), floor_funcs))
         chk = Checkers(ctx)
@@ -878,6 +898,30 @@ def inventory(ctx, rid, desc, roots=None, scope=None, floor_sites=None, floor_fu
         for p in funcs:
             own = ctx.owner(p)
             if own == p:
+                owns = sorted(ctx.owners(p))
+                if len(owns) > 1 and scope is not None:
+                    owns = [o for o in owns if scope(o)] or owns
+                if len(owns) >= 1 and owns != [p]:
+                    # a helper shared by several vocabulary functions (their common tail extracted): each of its sites stands
+                    # for one site of every owner, and needs every owner's next unused discharge entry of that kind
+                    for s in all_sites[p]:
+                        if s['key'] in PD.DISCHARGE:
+                            continue
+                        ks = []
+                        for o in owns:
+                            i = 0
+                            while True:
+                                k2 = '%s|%s|%s#%d' % (o, s['kind'], s['detail'], i)
+                                if k2 not in PD.DISCHARGE:
+                                    break
+                                if k2 not in used:
+                                    ks.append(k2)
+                                    break
+                                i += 1
+                        if len(ks) == len(owns):
+                            used.update(ks)
+                            s['moved_from'] = s['key']
+                            s['shared'] = ks
                 continue
             for s in all_sites[p]:
                 if s['key'] in PD.DISCHARGE:
@@ -901,6 +945,18 @@ def inventory(ctx, rid, desc, roots=None, scope=None, floor_sites=None, floor_fu
                     continue
                 nsites += 1
                 site = ctx.site(p, s['sp'])
+                if s.get('shared'):
+                    for k2 in s['shared']:
+                        ent = PD.DISCHARGE[k2]
+                        if ent[0] == 'reason':
+                            r.ok(k2, site, built='reasoned: ' + ent[1])
+                        else:
+                            ok, why = chk.run(ent[1])
+                            if ok:
+                                r.ok(k2, site, built='rule %s: %s' % (ent[1], why))
+                            else:
+                                r.bad(k2, site, built='%s %s' % (s['kind'], s['detail']), expected='discharge rule `%s` holds' % ent[1], why='discharge no longer holds: ' + why)
+                    continue
                 ent = PD.DISCHARGE.get(s['key'])
                 via = ' <- '.join(reversed(ctx.cg.path_to(seen, p)[-4:]))
                 if ent is None:
